@@ -225,6 +225,7 @@ type world struct {
 	desc []string // human-readable script, for samples/replays
 	// stats
 	conflict bool
+	cur      string // kind of the event being executed
 }
 
 func newWorld(c *Ctx, kind string, n int) *world {
@@ -714,29 +715,44 @@ func sliceCrdt(c *Ctx, kind string) {
 	for h := 0; h < n; h++ {
 		nrep := 2 + c.Rng.Intn(3)
 		w := newWorld(c, kind, nrep)
-		steps := 8 + c.Rng.Intn(30)
-		for s := 0; s < steps; s++ {
-			ri := c.Rng.Intn(nrep)
-			switch k := c.Rng.Intn(100); {
-			case k < 55:
-				w.local(ri)
-			case k < 63:
-				w.tx(ri)
-			case k < 80:
+		// a panic escaping the implementation ends the history (the datatype may hold its lock)
+		p, msg := guarded(func() {
+			steps := 8 + c.Rng.Intn(30)
+			for s := 0; s < steps; s++ {
+				ri := c.Rng.Intn(nrep)
+				switch k := c.Rng.Intn(100); {
+				case k < 55:
+					w.cur = "local call"
+					w.local(ri)
+				case k < 63:
+					w.cur = "transaction"
+					w.tx(ri)
+				case k < 80:
+					w.cur = "push"
+					w.push(ri)
+				default:
+					w.cur = "delivery"
+					w.deliver(ri, 1+c.Rng.Intn(3))
+				}
+				w.checkConvergence()
+			}
+			// drain: everybody pushes, everybody receives everything
+			for ri := range w.reps {
+				w.cur = "push"
 				w.push(ri)
-			default:
-				w.deliver(ri, 1+c.Rng.Intn(3))
+			}
+			for ri := range w.reps {
+				w.cur = "delivery"
+				w.deliver(ri, 1<<20)
 			}
 			w.checkConvergence()
+		})
+		if p {
+			prop := map[string]string{"local call": "C03", "transaction": "C09", "push": "C15", "delivery": "C01"}[w.cur]
+			c.Violate(prop, "panic-in-"+strings.ReplaceAll(w.cur, " ", "-")+"-"+kind, fmt.Sprintf("%s: the implementation panicked during a %s: %s", kind, w.cur, msg), w.desc)
+			c.Count("history-ended-by-panic")
+			continue
 		}
-		// drain: everybody pushes, everybody receives everything
-		for ri := range w.reps {
-			w.push(ri)
-		}
-		for ri := range w.reps {
-			w.deliver(ri, 1<<20)
-		}
-		w.checkConvergence()
 		cu := make([]string, nrep)
 		for i, r := range w.reps {
 			cu[i] = gStr(r.cuid)
